@@ -196,6 +196,10 @@ func NextToken(l *syntax.Lexer) (syntax.Token, error) {
 	ch := l.GetCurrentChar()
 	switch ch {
 	case syntax.RuneEOF:
+		// U+0000 inside the text is an invalid character, not the end of input
+		if l.GetCursor() < len(l.GetSource()) {
+			return syntax.Token{}, zerr.InvalidChar(ch, l.GetCursor())
+		}
 		return parseEOF(l)
 	case CharZHU, SlashOp:
 		// save current cursor location (as) savepoint - when parsing 注-like
